@@ -43,6 +43,9 @@ const (
 type initGuardedStore[H header.Header[H]] struct {
 	*goheaderstore.Store[H]
 	mu sync.RWMutex
+
+	appendMu sync.Mutex
+	appended uint64 // height of the last header handed to the store by Append
 }
 
 func (s *initGuardedStore[H]) Init(ctx context.Context, initial H) error {
@@ -62,6 +65,26 @@ func (s *initGuardedStore[H]) Head(ctx context.Context, opts ...header.HeadOptio
 		defer s.mu.RUnlock()
 	}
 	return s.Store.Head(ctx, opts...)
+}
+
+// Append hands on only what it has not handed on before. go-header's syncer appends from two goroutines -
+// the handling of incoming network heads and the sync loop - each after an unsynchronised look at the head
+// it remembers, so both can append the same header (a gossiped head arriving while the first sync after a
+// start is under way); go-header treats a header that is published twice as fatal.
+func (s *initGuardedStore[H]) Append(ctx context.Context, headers ...H) error {
+	s.appendMu.Lock()
+	defer s.appendMu.Unlock()
+	for len(headers) > 0 && s.appended != 0 && headers[0].Height() <= s.appended {
+		headers = headers[1:]
+	}
+	if len(headers) == 0 {
+		return nil
+	}
+	if err := s.Store.Append(ctx, headers...); err != nil {
+		return err
+	}
+	s.appended = headers[len(headers)-1].Height()
+	return nil
 }
 
 // SyncService is the P2P Sync Service for blocks and headers.
